@@ -1,7 +1,7 @@
 //! C16 duplicate-packets mode: E1 multiplicity monitor (e1_checks::c16_cells), copies counted on the wire against the
 //! real Server, start-up acceptance of N through Config::new and the binary, and tftpc against a duplicating tftpd.
 
-use crate::e2_c05::TFTPD;
+use crate::e2_c05::tftpd_path;
 use crate::loopback::*;
 use crate::refcodec::{self as rc, RPacket};
 use crate::util::*;
@@ -180,12 +180,12 @@ pub fn config_cell(_spec: &Value) -> Value {
         }
     }
     // the real binary: 254 starts, 255 and 256 exit with an error
-    if std::path::Path::new(TFTPD).exists() {
+    if std::path::Path::new(&tftpd_path()).exists() {
         for (n, must_run) in [(254u32, true), (255, false), (256, false)] {
             let port = free_port(false);
             let dir = format!("{}/c16bin", scratch_root());
             let _ = std::fs::create_dir_all(&dir);
-            let mut child = match std::process::Command::new(TFTPD).args(["-p", &port.to_string(), "-d", &dir, "--duplicate-packets", &n.to_string()]).stdout(std::process::Stdio::null()).stderr(std::process::Stdio::null()).spawn() {
+            let mut child = match std::process::Command::new(tftpd_path()).args(["-p", &port.to_string(), "-d", &dir, "--duplicate-packets", &n.to_string()]).stdout(std::process::Stdio::null()).stderr(std::process::Stdio::null()).spawn() {
                 Ok(ch) => ch,
                 Err(e) => {
                     c.machinery_errors.push(format!("spawn tftpd: {e}"));
@@ -218,7 +218,7 @@ pub fn config_cell(_spec: &Value) -> Value {
             }
         }
     } else {
-        c.machinery_errors.push(format!("{TFTPD} missing"));
+        c.machinery_errors.push(format!("{} missing", tftpd_path()));
     }
     c.samples.push(json!({"config": "Config::new with --duplicate-packets N for N = 0..=300 and non-numeric values; tftpd binary with 254, 255, 256"}));
     c.trace_hashes.insert(1);
